@@ -611,3 +611,24 @@ example : 3 * (2 : Nat) * (maxL (greedy id 2 [3, 3, 2, 2, 2]).sums : Int) ≤ (4
 example : 3 * (2 : Nat) * (maxL (greedy id 2 [3, 3, 2, 2, 2]).sums : Int) = (4 * (2 : Nat) - 1) * 6 := by decide
 
 end Prtpy.LPT43
+
+/-
+Axiom audit (Lean 4.33.0; output observed with the commands appended to a copy of this file):
+
+#print axioms Prtpy.LPT43.greedy_four_thirds
+  -- 'Prtpy.LPT43.greedy_four_thirds' depends on axioms: [propext, Classical.choice, Quot.sound]
+#print axioms Prtpy.LPT43.greedy_opt_of_large
+  -- 'Prtpy.LPT43.greedy_opt_of_large' depends on axioms: [propext, Classical.choice, Quot.sound]
+#print axioms Prtpy.LPT43.greedy_critical
+  -- 'Prtpy.LPT43.greedy_critical' depends on axioms: [propext, Quot.sound]
+#print axioms Prtpy.LPT43.exists_critical
+  -- 'Prtpy.LPT43.exists_critical' depends on axioms: [propext, Classical.choice, Quot.sound]
+#print axioms Prtpy.LPT43.greedy_four_thirds_small
+  -- 'Prtpy.LPT43.greedy_four_thirds_small' depends on axioms: [propext, Classical.choice, Quot.sound]
+#print axioms Prtpy.LPT43.large_fits
+  -- 'Prtpy.LPT43.large_fits' depends on axioms: [propext, Classical.choice, Quot.sound]
+#print axioms Prtpy.LPT43.two_per_bin_count
+  -- 'Prtpy.LPT43.two_per_bin_count' depends on axioms: [propext, Classical.choice, Quot.sound]
+#print axioms Prtpy.LPT43.opt_prefix_le
+  -- 'Prtpy.LPT43.opt_prefix_le' depends on axioms: [propext, Classical.choice, Quot.sound]
+-/
